@@ -585,6 +585,7 @@ func (*Parser).parseJoin
   option safety
   requires parOK(p) && stmt != nil
   before stripAliasPrefix on-operands-are-stripped-of-the-stream-alias-and-of-this-joins-alias: $arg1 == stmt.SourceAlias && $arg2 == jc.Alias
+  before stripAliasPrefix each-join-clause-has-the-type-written-in-that-very-clause: jc.JoinType == ite(strings.ToUpper(tok.Value) == "LEFT", "LEFT", "INNER") && jc.Table == tableTok.Value
   before stripAliasPrefix a-join-written-without-alias-is-addressed-by-the-tables-own-name: aliasTok.Type != TokenAS && !(aliasTok.Type == TokenIdent && !isClauseBoundaryIdent(aliasTok.Value)) ==> jc.Alias == jc.Table
   modifies stmt.JoinConfigs, heap(Lexer.ch), heap(Lexer.pos), heap(Lexer.readPos), heap(Lexer.line), heap(Lexer.column), p.errorRecovery.errors
   ensures parOK(p) && errOK(result) && p.lexer.pos >= old(p.lexer.pos)
@@ -592,6 +593,7 @@ func (*Parser).parseJoin
   loop 1 decreases len(p.lexer.input) - p.lexer.pos
   loop 2 invariant parOK(p) && p.lexer.pos > atloop(1, p.lexer.pos)
   loop 2 invariant aliasTok.Type != TokenAS && !(aliasTok.Type == TokenIdent && !isClauseBoundaryIdent(aliasTok.Value)) ==> jc.Alias == jc.Table
+  loop 2 invariant jc.JoinType == ite(strings.ToUpper(tok.Value) == "LEFT", "LEFT", "INNER") && jc.Table == tableTok.Value
   loop 2 decreases len(p.lexer.input) - p.lexer.pos
 
 // splitting of an argument list text: a comma separates only at parenthesis depth 0, and nothing inside a quoted literal
@@ -600,7 +602,7 @@ recfunc sq2((s Str) (n Int)) Int := (ite (<= n 0) 0 (let ((q (@sq2 s (- n 1))) (
 recfunc sdepth((s Str) (n Int)) Int := (ite (<= n 0) 0 (let ((d (@sdepth s (- n 1))) (q (@sq2 s (- n 1))) (c (gs.at s (- n 1)))) (ite (not (= q 0)) d (ite (= c 40) (+ d 1) (ite (= c 41) (- d 1) d)))))
 
 func splitTopLevelCommas
-  props C11 C14
+  props C11 C14 C01 C04 C07
   option safety
   loop 1 invariant 0 <= last && last <= i && last <= len(s) && i <= len(s) + 1
   loop 1 invariant i <= len(s) ==> sq2(s, i) == 0
@@ -733,6 +735,8 @@ func (*Parser).readMROrderBy
   props C11 C15
   option safety
   requires parOK(p)
+  before restore@1 a-direction-word-is-consumed-only-another-token-is-put-back: !strings.EqualFold(dir.Value, "DESC") && !strings.EqualFold(dir.Value, "ASC")
+  before save@2 each-sort-key-carries-the-column-and-the-direction-written: f.Expression == stripBackticks(t.Value) && f.Direction == ite(strings.EqualFold(dir.Value, "DESC"), types.SortDesc, types.SortAsc)
   modifies heap(Lexer.ch), heap(Lexer.pos), heap(Lexer.readPos), heap(Lexer.line), heap(Lexer.column), p.errorRecovery.errors
   ensures parOK(p) && errOK(result1) && p.lexer.pos >= old(p.lexer.pos)
   loop 1 invariant parOK(p) && p.lexer.pos >= old(p.lexer.pos)
@@ -823,6 +827,10 @@ func (*Parser).tryMRQuantifier
   props C11 C15
   option safety
   requires parOK(p)
+  observe reluctant := consumeReluctant
+  observe bounded := parseMRBounded
+  atreturn every-quantifier-is-greedy-unless-a-question-mark-follows-it: result1 ==> result0 != nil && (result0.Greedy <==> !$reluctant)
+  atreturn the-bounds-are-those-of-the-quantifier-written: result1 ==> (t.Type == TokenQuestion ==> result0.Min == 0 && result0.Max == 1) && (t.Type == TokenAsterisk ==> result0.Min == 0 && result0.Max == -1) && (t.Type == TokenPlus ==> result0.Min == 1 && result0.Max == -1) && (t.Type == TokenLBrace ==> result0.Min == $bounded.Min && result0.Max == $bounded.Max)
   modifies heap(Lexer.ch), heap(Lexer.pos), heap(Lexer.readPos), heap(Lexer.line), heap(Lexer.column), p.errorRecovery.errors
   ensures parOK(p) && errOK(result2) && p.lexer.pos >= old(p.lexer.pos)
 
